@@ -394,7 +394,7 @@ func identity(run *ev.Run, unit int64, r *rand.Rand) {
 		rw.mu.Unlock()
 		fc := &http.Client{Transport: rtFunc(func(q *http.Request) (*http.Response, error) {
 			if strings.HasSuffix(q.URL.Path, "/checkpoint") {
-				return &http.Response{StatusCode: 200, Body: io.NopCloser(bytes.NewReader(cp)), Request: q}, nil
+				return &http.Response{StatusCode: 200, Body: io.NopCloser(bytes.NewReader(cp)), ContentLength: int64(len(cp)), Request: q}, nil
 			}
 			return &http.Response{StatusCode: 404, Body: io.NopCloser(strings.NewReader("")), Request: q}, nil
 		})}
